@@ -250,6 +250,7 @@ fn eval_inner(target: &str, input: &str) -> Option<String> {
             }
         }
         "default_ns" => c10_default_ns_witness(),
+        "fixed_doc" => c20_fixed_doc(input),
         "ns_layout" => bounded::ns_layout(input),
         "char_ref" => bounded::char_ref(input),
         "level_order" => bounded::level_order(input),
@@ -297,6 +298,7 @@ fn inputs(target: &str, large: bool) -> Vec<String> {
         "ns_layout" => bounded::ns_layouts(),
         "char_ref" => bounded::ref_strings(large),
         "level_order" => { let mut v = Vec::new(); for d in 0..3 { for n in 0..12 { v.push(format!("{} {}", d, n)); } } v }
+        "fixed_doc" => { let mut v = Vec::new(); for b in 0..4 { for a in 0..4 { v.push(format!("{} {}", b, a)); } } v }
         "default_ns" => vec!["<a xmlns=\"u\"/> + append(new element b in no namespace)".to_string()],
         "xhtml_ns" => vec!["<h:p xmlns:h=\"http://www.w3.org/1999/xhtml\"><h:br/></h:p>".to_string()],
         "text_roundtrip_gt" | "cdata_roundtrip" => {
@@ -675,4 +677,25 @@ mod bounded {
         }
         if got != want { Some(format!("level_order from node {} of document {}: {:?}, expected {:?}", f[1], f[0], got, want)) } else { None }
     }
+}
+
+// (C20) fixed::Document::xotify: leading and trailing content end up before / after the document element, in order
+#[allow(dead_code)]
+fn c20_fixed_doc(input: &str) -> Option<String> {
+    use xot::fixed;
+    let f: Vec<&str> = input.split(' ').collect();
+    let (nb, na): (usize, usize) = (f[0].parse().ok()?, f[1].parse().ok()?);
+    let mk = |tag: &str, i: usize| if i % 2 == 0 { fixed::DocumentContent::Comment(format!("{}{}", tag, i)) } else {
+        fixed::DocumentContent::ProcessingInstruction(fixed::ProcessingInstruction { target: format!("{}{}", tag, i), content: None }) };
+    let doc = fixed::Document {
+        before: (0..nb).map(|i| mk("b", i)).collect(),
+        document_element: fixed::Element { name: fixed::Name { namespace: "".into(), localname: "e".into() }, prefixes: vec![], attributes: vec![], children: vec![fixed::Content::Text("t".into())] },
+        after: (0..na).map(|i| mk("a", i)).collect(),
+    };
+    let mut xot = Xot::new();
+    let d = doc.xotify(&mut xot);
+    let got = xot.to_string(d).ok()?;
+    let show = |tag: &str, i: usize| if i % 2 == 0 { format!("<!--{}{}-->", tag, i) } else { format!("<?{}{}?>", tag, i) };
+    let want: String = (0..nb).map(|i| show("b", i)).collect::<String>() + "<e>t</e>" + &(0..na).map(|i| show("a", i)).collect::<String>();
+    if got != want { Some(format!("xotify gives {:?}, expected {:?}", got, want)) } else { None }
 }
